@@ -192,6 +192,14 @@ def sortMuts (l : List Mut) : List Mut := sortStable mutLtK l
 /-- natural order of names (natsort) -/
 def natLt (a b : String) : Bool := keyLt (natKey a) (natKey b)
 
+/-- minor alleles of one major allele with the same variant set are merged under the smallest name -/
+def dedupMinors (majors : List MajorA) : List MajorA :=
+  majors.map fun a =>
+    let gs : List (List Mut × List String) := (groupFold (fun (s : MinorA) => s.neutral) a.minors).map fun g => (g.1, g.2.map (·.name))
+    { a with minors := gs.map fun g =>
+        let keep := strMin g.2
+        { name := keep, altName := (a.minors.find? (·.name == keep)).bind (·.altName), neutral := g.1 } }
+
 def buildCatalogue (db : RawDb) : Catalogue :=
   let maps := mkMaps db.seq db.start db.endP db.strand db.cigar
   let regs := allRegions db
@@ -325,11 +333,7 @@ def buildCatalogue (db : RawDb) : Catalogue :=
     let gs : List (List Mut × List String) := (groupFold (fun (s : MinorA) => s.neutral) a.minors).map fun g => (g.1, g.2.map (·.name))
     gs.flatMap fun g => if g.2.length > 1 then
       (g.2.filter fun s => s != strMin g.2 && !s.toList.contains '#').map fun s => (s, strMin g.2) else []
-  let majors3 := majors2.map fun a =>
-    let gs : List (List Mut × List String) := (groupFold (fun (s : MinorA) => s.neutral) a.minors).map fun g => (g.1, g.2.map (·.name))
-    { a with minors := gs.map fun g =>
-        let keep := strMin g.2
-        { name := keep, altName := (a.minors.find? (·.name == keep)).bind (·.altName), neutral := g.1 } }
+  let majors3 := dedupMinors majors2
   let cfgsF := cfgsN.map fun c => { c with alleles := (majors3.filter (·.cnConfig == c.name)).map (·.name) }
   { mutations := tab, alleles := majors3, cnConfigs := cfgsF, removed := removed, regions := regs }
 
